@@ -58,6 +58,10 @@ type OnDiskAggTrigger struct {
 	// filter by market hours if this is "nasdaq"
 	filter   string
 	aggCache *sync.Map
+	// fireMu serialises Fire: the dispatcher starts one goroutine per flush, and
+	// a Fire reads the cache, aggregates and stores the cache again, so two
+	// overlapping calls for the same bucket would lose each other's update
+	fireMu sync.Mutex
 }
 
 var _ trigger.Trigger = &OnDiskAggTrigger{}
@@ -108,6 +112,9 @@ func NewTrigger(conf map[string]interface{}) (trigger.Trigger, error) {
 
 // Fire implements trigger interface.
 func (s *OnDiskAggTrigger) Fire(keyPath string, records []trigger.Record) {
+	s.fireMu.Lock()
+	defer s.fireMu.Unlock()
+
 	elements := strings.Split(keyPath, "/")
 	tf := utils.NewTimeframe(elements[1])
 	fileName := elements[len(elements)-1]
